@@ -527,6 +527,41 @@ var All = []W{
 		}
 		return nil
 	}},
+	{ID: "D35", Property: "C10", What: "a slice of pointers to integers decoded into a target whose slice has enough capacity is not cleared first: every element is decoded into what the old element still points to, so a pointer the caller kept from the previous decode changes its value", Run: func() error {
+		type T struct {
+			S []*int32 `plenc:"1"`
+		}
+		p := newP(false, false)
+		a, b, c := int32(1), int32(2), int32(7)
+		first, err := p.Marshal(nil, &T{S: []*int32{&a, &b}})
+		if err != nil {
+			return err
+		}
+		second, err := p.Marshal(nil, &T{S: []*int32{&c}})
+		if err != nil {
+			return err
+		}
+		for _, cut := range []bool{true, false} {
+			var t T
+			if err := p.Unmarshal(first, &t); err != nil {
+				return err
+			}
+			kept := t.S[0]
+			if cut {
+				t.S = t.S[:0]
+			}
+			if err := p.Unmarshal(second, &t); err != nil {
+				return err
+			}
+			if len(t.S) != 1 || *t.S[0] != 7 {
+				return fmt.Errorf("second decode gives %d elements", len(t.S))
+			}
+			if *kept != 1 {
+				return fmt.Errorf("a pointer kept from the first decode reads %d after the second one (slice cut to [:0] first: %v), it was 1", *kept, cut)
+			}
+		}
+		return nil
+	}},
 	{ID: "D16b", Property: "C13", What: "descriptor walker drops zero-length elements (empty strings, empty structs, nil pointers) from arrays", Run: func() error {
 		p := newP(false, false)
 		got, err := descJSON(p, &tD16{S: []string{"a", "", "b"}, PS: []*tD16e{{A: 1}, nil, {}}})
